@@ -19,8 +19,8 @@ ALLOWED_AXIOMS = {
     "ClassicalDedekindReals.sig_not_dec", "ClassicalDedekindReals.sig_forall_dec",
     "FunctionalExtensionality.functional_extensionality_dep", "Classical_Prop.classic",
 }
-FORBIDDEN = re.compile(r"\b(Admitted|admit|Axiom|Axioms|Parameter|Parameters|Conjecture|Hypothesis|Hypotheses|"
-                       r"Variables|Abort|give_up)\b|Unset\s+Guard|Unset\s+Positivity|Unset\s+Universe|"
+FORBIDDEN = re.compile(r"\b(Admitted|admit|Axiom|Axioms|Parameter|Parameters|Conjecture|Conjectures|"
+                       r"Abort|give_up)\b|Unset\s+Guard|Unset\s+Positivity|Unset\s+Universe|"
                        r"bypass_check|type-in-type|impredicative-set|Admit\s+Obligations")
 
 
@@ -101,7 +101,7 @@ def forbidden_tokens():
                 m = FORBIDDEN.search(code)
                 if m:
                     bad.append("%s:%d: %s" % (os.path.relpath(path, VERIF), ln, m.group(0)))
-                if re.match(r"\s*(Variable|Context)\b", code) and depth == 0:
+                if re.match(r"\s*(Variable|Variables|Hypothesis|Hypotheses|Context)\b", code) and depth == 0:
                     bad.append("%s:%d: %s outside a section" % (os.path.relpath(path, VERIF), ln, code.strip()[:40]))
     return bad
 
